@@ -228,11 +228,15 @@ func churn(c *report.Check, prop string) {
 	if c.Thorough() {
 		cb = 2
 	}
-	plans := []e2.Plan{{Scns: scns, Bound: cb, NShards: 4}}
+	ns := 4
+	if c.Thorough() {
+		ns = 32 // many small shards balance the long tail of the deepest sub-trees
+	}
+	plans := []e2.Plan{{Scns: scns, Bound: cb, NShards: ns}}
 	if prop == "C02" {
 		// two stabilize rounds on one node (periodic task vs the advisory of a join/leave)
 		// with stabilize itself interleaved statement by statement
-		plans = append(plans, e2.Plan{Scns: fineStabilizeScenarios(c.Thorough()), Bound: 2, NShards: 4})
+		plans = append(plans, e2.Plan{Scns: fineStabilizeScenarios(c.Thorough()), Bound: 2, NShards: ns})
 	}
 	if prop == "C03" {
 		// acknowledged client writes racing the membership change must survive it: the C04
@@ -247,7 +251,7 @@ func churn(c *report.Check, prop string) {
 			}
 			cs = sub
 		}
-		plans = append(plans, e2.Plan{Scns: cs, Bound: -1, TotalBound: 2, NShards: 6})
+		plans = append(plans, e2.Plan{Scns: cs, Bound: -1, TotalBound: 2, NShards: ns + 2})
 		scns = append(append([]string{}, scns...), cs...)
 	}
 	sum := e2.Drive(c, plans, 0)
